@@ -481,6 +481,9 @@ func (eval Evaluator) SetScale(ct *rlwe.Ciphertext, scale rlwe.Scale) (err error
 	if err = eval.Mul(ct, &ratioFlo, ct); err != nil {
 		return fmt.Errorf("cannot SetScale: %w", err)
 	}
+	// Mul only records the prime(s) by which a non-integer ratio was scaled: accounts for the ratio itself,
+	// so that RescaleTo compares the actual scale of ct with the target and divides by these prime(s).
+	ct.Scale = ct.Scale.Mul(rlwe.NewScale(&ratioFlo))
 	if err = eval.RescaleTo(ct, scale, ct); err != nil {
 		return fmt.Errorf("cannot SetScale: %w", err)
 	}
